@@ -795,6 +795,27 @@ func ruleEqualLeaflist(w *core.World, r *core.Report) {
 			cmp = true
 		}
 	}
+	// slices.EqualFunc(a, b, EqualTypedValues) compares the lengths itself
+	for _, c := range core.Calls(f) {
+		if core.CalleeKey(c) != "slices.EqualFunc" || len(c.Common().Args) != 3 {
+			continue
+		}
+		both := 0
+		for _, a := range c.Common().Args[:2] {
+			for _, oc := range core.OriginCalls(a) {
+				if strings.HasSuffix(core.CalleeKey(oc), "ScalarArray.GetElement") {
+					both++
+					break
+				}
+			}
+			if strings.HasSuffix(core.FieldOf(a), "ScalarArray.Element") {
+				both++
+			}
+		}
+		if both >= 2 {
+			nLen, cmp = 2, true
+		}
+	}
 	r.Check(nLen >= 2 && cmp, "EQUAL-LEAFLIST", core.Site(f, "lengths compared"), w.Pos(f.Pos()), "leaf-lists of different length must be unequal")
 	rec := core.RecursesInLoop(f)
 	r.Check(rec, "EQUAL-LEAFLIST", core.Site(f, "elements compared pairwise"), w.Pos(f.Pos()), "element-wise comparison by recursion")
